@@ -416,6 +416,12 @@ func syClaim(ord int) *v1.PersistentVolumeClaim {
 }
 
 func syPatchOf(c *syCase, data string) []byte {
+	switch data {
+	case "S": // JSON that the strategic merge itself refuses (unknown directive)
+		return []byte("{\"spec\":{\"template\":{\"$patch\":\"bogus\"}}}")
+	case "R": // a stored revision whose data is JSON (the API server insists on that) but the patched object does not decode into a StatefulSet: applying it is an error
+		return []byte("{\"spec\":{\"template\":{\"$patch\":\"replace\",\"spec\":{\"containers\":\"oops\"}}}}")
+	}
 	s := baseSet(rcSetName, int32(c.r), "img-"+data)
 	if !c.claims {
 		s.Spec.VolumeClaimTemplates = nil
@@ -642,7 +648,7 @@ func (w *syWorld) tplBad(c *syCase) int {
 
 func (w *syWorld) finalRevs(c *syCase) string {
 	dataOf := func(raw []byte) string {
-		for _, d := range []string{"A", "B", "X", "Y"} {
+		for _, d := range []string{"A", "B", "X", "Y", "R", "S"} {
 			if string(raw) == string(syPatchOf(c, d)) {
 				return d
 			}
@@ -862,11 +868,15 @@ func genSyCase(rng *rand.Rand) *syCase {
 	// revisions
 	nrev := weighted(rng, 10, 20, 25, 25, 15, 5)
 	datas := []string{c.tmpl, "X", "Y"}
+	corrupt := rng.Intn(40) == 0 // a history holding revisions whose data cannot be applied (judged by the monitors only)
 	used := map[string]bool{}
 	numOff := pick(rng, 0, 0, 0, 0, 0, 6, 7, 96) // now and then the numbers straddle a power of ten (8..11, 97..100)
 	for i := 0; i < nrev; i++ {
 		r := syRev{number: numOff + 1 + rng.Intn(4), ctim: rng.Intn(3), sel: rng.Intn(6) != 0, marker: rng.Intn(5) == 0}
 		r.data = datas[weighted(rng, 45, 35, 20)]
+		if corrupt && rng.Intn(2) == 0 {
+			r.data = pick(rng, "R", "S")
+		}
 		r.owner = pick(rng, "s", "s", "s", "s", "s", "s", "n", "n", "n", "o", "o")
 		if rng.Intn(8) == 0 { // the same ownership with a non-controller reference next to it
 			r.owner = strings.ToUpper(r.owner)
